@@ -48,13 +48,14 @@ def _lf(x) -> tuple:
 
 
 class Unit:
-    __slots__ = ("L", "A", "N", "ext")
+    __slots__ = ("L", "A", "N", "ext", "pt")
 
-    def __init__(self, L=0, A=0, N=0, ext=False):
+    def __init__(self, L=0, A=0, N=0, ext=False, pt=False):
         self.L = _lf(L) if not isinstance(L, tuple) else L
         self.A = Fraction(A)
         self.N = Fraction(N)
         self.ext = bool(ext)
+        self.pt = bool(pt)  # a coordinate (affine point), not a length (vector)
 
     def key(self):
         return (self.L, self.A, self.N)
@@ -98,7 +99,13 @@ class Unit:
         return None
 
     def with_ext(self, ext) -> "Unit":
-        return Unit(self.L, self.A, self.N, ext)
+        return Unit(self.L, self.A, self.N, ext, self.pt)
+
+    def as_vector(self) -> "Unit":
+        return Unit(self.L, self.A, self.N, self.ext, False)
+
+    def as_point(self) -> "Unit":
+        return Unit(self.L, self.A, self.N, self.ext, True)
 
     def show(self) -> str:
         parts = []
@@ -112,7 +119,7 @@ class Unit:
             parts.append("amplitude" if self.A == 1 else f"amplitude^{self.A}")
         if self.N:
             parts.append("count" if self.N == 1 else f"count^{self.N}")
-        return " ".join(parts) or "1"
+        return (" ".join(parts) or "1") + (" [coordinate]" if self.pt else "")
 
     __repr__ = show
 
@@ -162,7 +169,7 @@ def join(a, b):
     if a is None or b is None:
         return None
     if isinstance(a, Unit) and isinstance(b, Unit):
-        return a.with_ext(a.ext or b.ext) if a.same(b) else None
+        return Unit(a.L, a.A, a.N, a.ext or b.ext, a.pt or b.pt) if a.same(b) else None
     if isinstance(a, Fn) and isinstance(b, Fn):
         return a
     return None
@@ -296,6 +303,16 @@ class DimEval:
         self._memo[key] = res
         return res
 
+    def name_units_per_def(self, name: str, at):
+        """[(def node, unit)] for every definition of ``name`` reaching ``at``"""
+        node = at if not isinstance(at, ast.AST) else self.fv.node_of(at)
+        out = []
+        if node is None:
+            return out
+        for d in sorted(self.fv.defs_reaching(name, node), key=lambda n: n.idx):
+            out.append((d, self.as_unit(self.def_unit(d, name))))
+        return out
+
     def free_name(self, name):
         if name in self.param_units:
             return self.param_units[name]
@@ -420,6 +437,10 @@ class DimEval:
             return False
         return True
 
+    def no_point(self, u, node, what):
+        if isinstance(u, Unit) and u.pt:
+            self.report("AFFINE", node, f"a coordinate (position of a grid boundary) is used as a length in {what}: `{U(node)[:80]}` — the result depends on where the origin of the grid lies; use upper − lower bound")
+
     def need_dimensionless(self, u, node, what):
         if isinstance(u, Unit) and not u.is_one():
             self.report("DIM", node, f"{what} needs a dimensionless argument but gets {u.show()} in `{U(node)[:90]}`")
@@ -511,6 +532,8 @@ class DimEval:
             if a is POLY:
                 return POLY
             if isinstance(a, Unit):
+                self.no_point(a, n, "a power")
+                a = a.as_vector()
                 if e is None:
                     return a if a.is_one() else None
                 r = a.pow(e)
@@ -522,7 +545,11 @@ class DimEval:
         if isinstance(n.op, (ast.Add, ast.Sub)):
             self.additive(a, b, n)
             if isinstance(a, Unit) and isinstance(b, Unit):
-                return a.with_ext(a.ext or b.ext)
+                if isinstance(n.op, ast.Sub):
+                    pt = a.pt and not b.pt  # point - point = vector, point - vector = point
+                else:
+                    pt = a.pt or b.pt
+                return Unit(a.L, a.A, a.N, a.ext or b.ext, pt)
             return join(a, b) if not (a is None or b is None) else (a if isinstance(a, Unit) else (b if isinstance(b, Unit) else None))
         if isinstance(n.op, (ast.Mult, ast.Div, ast.FloorDiv, ast.MatMult)):
             if a is POLY and b is POLY:
@@ -532,6 +559,9 @@ class DimEval:
             if b is POLY or b is BOTTOM:
                 b = ONE
             if isinstance(a, Unit) and isinstance(b, Unit):
+                self.no_point(a, n, "a product/quotient")
+                self.no_point(b, n, "a product/quotient")
+                a, b = a.as_vector(), b.as_vector()
                 if isinstance(n.op, ast.Mult):
                     return a.mul(b)
                 if isinstance(n.op, ast.MatMult):
@@ -646,7 +676,13 @@ class DimEval:
         if name in ("numpy.prod",):
             u = self.as_unit(self._unit(args[0], at)) if args else None
             if isinstance(u, Unit):
-                return u.pow(("sym", self.dim_symbol)) if not u.is_one() else u
+                self.no_point(u, n, "a product")
+                u = u.as_vector()
+                sym = self.dim_symbol
+                a0 = args[0]
+                if isinstance(a0, (ast.ListComp, ast.GeneratorExp)) and len(a0.generators) == 1:
+                    sym = self.count_symbol(a0.generators[0].iter, at) or sym
+                return u.pow(("sym", sym)).with_ext(False) if not u.is_one() else u.with_ext(False)
             return u
         if name in DIMLESS_ARG_FUNCS:
             for a in args:
@@ -772,19 +808,41 @@ class DimEval:
             self._unit(a, at)
         return None
 
+    def flat_defs(self, name, node, depth=4):
+        """definitions of ``name`` reaching ``node``; pass-through definitions
+        (``x = float(x)``, ``x = y``) are replaced by the definitions they forward"""
+        out = []
+        for d in sorted(self.fv.defs_reaching(name, node), key=lambda n: n.idx):
+            v = self.fv.value_of_def(d, name) if d is not self.fv.cfg.entry and d.stmt is not None and not isinstance(d.stmt, ast.AugAssign) else None
+            inner = v
+            while isinstance(inner, ast.Call) and (self.resolved(inner) in PRESERVE_FUNCS or (dotted(inner.func) or "") in ("float",)) and len(inner.args) == 1:
+                inner = inner.args[0]
+            if isinstance(inner, ast.Name) and depth > 0 and d is not self.fv.cfg.entry:
+                out.extend(self.flat_defs(inner.id, d, depth - 1))
+            else:
+                out.append(d)
+        seen, res = set(), []
+        for d in out:
+            if id(d) not in seen:
+                seen.add(id(d))
+                res.append(d)
+        return res
+
     def sigma_obligation(self, call, s, x, at):
         """SmoothData1D(x, y, sigma=s): s must have the unit of x — evaluated per
         reaching definition so that user-supplied (unknown) values do not mask a default."""
         checked = 0
         if isinstance(s, ast.Name) and at is not None:
-            for d in sorted(self.fv.defs_reaching(s.id, at), key=lambda n: n.idx):
-                u = self.as_unit(self.def_unit(d, s.id))
+            for d in self.flat_defs(s.id, at):
+                if d is self.fv.cfg.entry or d.stmt is None:
+                    continue
+                names = CFG_defs(d)
+                nm = s.id if s.id in names else (names[0] if names else s.id)
+                u = self.as_unit(self.def_unit(d, nm))
                 if isinstance(u, Unit) and isinstance(x, Unit):
                     checked += 1
-                    tag = "default" if not isinstance(getattr(d, "stmt", None), ast.AugAssign) else "update"
-                    ok = u.same(x)
-                    self.obligation("SmoothData1D.sigma", call, d.stmt if d.stmt is not None else call, ok,
-                                    f"kernel width has unit {u.show()}, the abscissa has {x.show()}", u, x, d)
+                    self.obligation("SmoothData1D.sigma", call, d.stmt, u.same(x) and not u.pt,
+                                    f"kernel width `{U(d.stmt)[:60]}` has unit {u.show()}, the abscissa has {x.show()}", u, x, d)
         else:
             u = self.as_unit(self._unit(s, at))
             if isinstance(u, Unit) and isinstance(x, Unit):
@@ -794,6 +852,12 @@ class DimEval:
 
     def obligation(self, what, call, where, ok, detail, got, want, d):
         self.obl.append((what, call, where, ok, detail, d))
+
+
+def CFG_defs(d):
+    from .cfg import CFG
+
+    return CFG.defs_of(d)
 
 
 class _EnvEval:
